@@ -42,9 +42,11 @@ def _sentinel_name(m):
 
 
 class Recorder:
-    def __init__(self, repo):
+    def __init__(self, repo, concrete_render=False):
         self.repo = repo
         self.log = []
+        self.concrete_render = concrete_render
+        self.streams = {}
         prims = {
             'python_to_sdocs': self.p_pipeline,
             'default_render_to_stream': self.p_render_plain,
@@ -57,9 +59,13 @@ class Recorder:
             'method:write': self.m_write,
             'method:getvalue': self.m_getvalue,
         }
+        if concrete_render:
+            # the plain renderer is interpreted for real on a small concrete sdoc sequence
+            del prims['default_render_to_stream']
         self.it = S.interp(repo, 'builder', prims, max_paths=4000)
         self.it.concrete_context = True
-        self.it.concrete_classes = {'UnsetSentinel', 'PrettyPrinter'}
+        self.it.concrete_classes = {'UnsetSentinel', 'PrettyPrinter', 'SLine', 'SAnnotationPush', 'SAnnotationPop'}
+        self.it.eager_generators = {f_.name for mod_ in ('render', 'utils') for f_ in repo.module(mod_).funcs.values()}
         self.n_stringio = 0
         # module-level assignments happen at import time, i.e. before anything the scenarios do
         m = repo.module('')
@@ -71,6 +77,11 @@ class Recorder:
 
     def p_pipeline(self, it, a, k, n):
         self.log.append(('pipeline', list(a), dict(k)))
+        if self.concrete_render:
+            mk = lambda cls, *args: it.construct(TypeV(cls), list(args), {}, None)
+            ann = Const('<annotation>')
+            return ListV([Const('ab'), Const(' '), mk('SLine', Const(2)), Const('c '), mk('SAnnotationPush', ann), Const('d'),
+                          mk('SAnnotationPop', ann), Const('  '), mk('SLine', Const(4)), mk('SLine', Const(0)), Const('e')])
         return Sym('SDOCS#%d' % len(self.log))
 
     def p_render_plain(self, it, a, k, n):
@@ -102,9 +113,13 @@ class Recorder:
 
     def m_write(self, it, obj, a, k, n):
         self.log.append(('write', obj, list(a)))
+        self.streams.setdefault(prov(obj), []).append(a[0] if a else NONE)
         return NONE
 
     def m_getvalue(self, it, obj, a, k, n):
+        parts = self.streams.get(prov(obj), [])
+        if self.concrete_render and all(isinstance(x, Const) and isinstance(x.v, str) for x in parts):
+            return Const(''.join(x.v for x in parts))
         return Sym('%s.getvalue()' % prov(obj))
 
 
@@ -228,8 +243,12 @@ def run(repo, rep):
             writes = [e for e in rec.log if e[0] == 'write']
             if ename == 'pformat':
                 n += 1
+                dflt = {'newline': '\n', 'separator': ' '}
+                extra = dict(zip(['newline', 'separator'], rend[0][1][2:]))
+                extra.update(rend[0][2])
+                extra_ok = all(k_ in dflt and isinstance(v_, Const) and v_.v == dflt[k_] for k_, v_ in extra.items())
                 rep.check(prov(rstream).startswith('StringIO#') and prov(prs[0].value) == prov(rstream) + '.getvalue()' and not writes
-                          and len(rend[0][1]) == 2 and not rend[0][2], 'C18.a', 'pformat:returns-stream-value', f.where,
+                          and extra_ok, 'C18.a', 'pformat:returns-stream-value', f.where,
                           'returns exactly what the plain renderer wrote into a fresh StringIO',
                           'pformat renders into %s and returns %s' % (prov(rstream), prov(prs[0].value)), nontrivial=True)
             else:
@@ -261,6 +280,28 @@ def run(repo, rep):
                           '%s writes an end string although end is empty' % ename)
             except Undecided as e:
                 rep.undecided('C18.a', '%s[no-stream]' % ename, f.where, str(e))
+    # the text: pformat's return value is exactly what pprint writes before the end string (the plain renderer interpreted on a
+    # small concrete sdoc sequence with trailing blanks, an indentation-only line and an annotation)
+    try:
+        r1 = Recorder(repo, concrete_render=True)
+        p1 = r1.it.explore(m.funcs['pformat'], [Sym('OBJ')], {})
+        r2 = Recorder(repo, concrete_render=True)
+        p2 = r2.it.explore(m.funcs['pprint'], [Sym('OBJ')], {'stream': Const('<STREAM>'), 'end': Const('<END>')})
+        n += 1
+        if len(p1) != 1 or len(p2) != 1 or p1[0].raised or p2[0].raised:
+            rep.undecided('C18.a', 'pformat-text-is-pprint-text', m.relpath, 'the entry points fork / raise on the concrete sample (%s, %s)'
+                          % (p1[0].raised.what if p1 and p1[0].raised else len(p1), p2[0].raised.what if p2 and p2[0].raised else len(p2)))
+        else:
+            text = p1[0].value.v if isinstance(p1[0].value, Const) else None
+            written = r2.streams.get(repr('<STREAM>'), [])
+            wtext = ''.join(x.v for x in written) if all(isinstance(x, Const) and isinstance(x.v, str) for x in written) else None
+            rep.check(text is not None and wtext is not None and wtext == text + '<END>' and '\n' in text, 'C18.a', 'pformat-text-is-pprint-text', m.relpath,
+                      'pformat(obj) + end == what pprint(obj) writes',
+                      'on the same sdocs pformat returns %r but pprint writes %r (expected the same text followed by the end string)' % (
+                          text if text is not None else prov(p1[0].value), wtext if wtext is not None else [prov(x) for x in written]), nontrivial=True)
+    except Undecided as e:
+        n += 1
+        rep.undecided('C18.a', 'pformat-text-is-pprint-text', m.relpath, str(e))
     rep.floor('C18.a', n, 150)
     nb = check_merge(repo, rep, 'C18.b')
     rep.floor('C18.b:explicit-none', nb, SETTINGS_MIN)
@@ -411,7 +452,29 @@ def run(repo, rep):
             n += 1
             rep.check(prov(prs[0].value).endswith('.getvalue()'), 'C18.d', 'PrettyPrinter.pformat:returns-text', f.where, 'returns the text',
                       'PrettyPrinter.pformat returns %s' % prov(prs[0].value))
-    rep.floor('C18.d', n - n0, 3)
+    # a printer object follows the defaults that are current when it prints (defaults are read at call time, also through the shim)
+    rec = Recorder(repo)
+    try:
+        obj = rec.it.construct(TypeV('PrettyPrinter'), [], {'width': Const(33)}, None)
+        rec.it.explore(sdc, [], {'max_seq_len': Const(7), 'depth': Const(3)})
+        rec.log.clear()
+        prs = rec.it.explore(pp.methods['pformat'], [obj, Sym('OBJ')], {}) if 'pformat' in pp.methods else []
+        calls = [e for e in rec.log if e[0] == 'pipeline']
+        n += 1
+        okd = len(prs) == 1 and prs[0].raised is None and len(calls) == 1
+        got = {}
+        if okd:
+            got = dict(zip(pts.params, calls[0][1]))
+            got.update(calls[0][2])
+            okd = all(isinstance(got.get(k_), Const) and got[k_].v == v_ for k_, v_ in (('width', 33), ('max_seq_len', 7), ('depth', 3)))
+        rep.check(okd, 'C18.d', 'PrettyPrinter:defaults-read-when-printing', pp.where, 'a printer built earlier follows set_default_config',
+                  'PrettyPrinter(width=33) built before set_default_config(max_seq_len=7, depth=3) prints with %s: the settings it was not given '
+                  'must come from the configuration current at the call, as for pformat(obj, width=33)'
+                  % {k_: prov(v_) for k_, v_ in got.items() if k_ in ('width', 'max_seq_len', 'depth')}, nontrivial=True)
+    except Undecided as e:
+        rep.undecided('C18.d', 'PrettyPrinter:defaults-read-when-printing', pp.where, str(e))
+        n += 1
+    rep.floor('C18.d', n - n0, 4)
 
     # ---------------------------------------------------------------- C18.e pretty_repr
     n0 = n
